@@ -542,6 +542,7 @@ func main() {
 	boolTable("exec_thumb_id", "the id given to a created / imported keyset is jwkkid.CreateKID of its exported public key", col(func(r execRow) bool { return r.thumbID }))
 	boolTable("exec_rotatable", "Rotate of a stored keyset (with its own key type) succeeded", col(func(r execRow) bool { return r.rotatable }))
 
+	boolTable("exec_bad_key_refused", "every EC private key NOT on the key type's curve (the keys of the other curves; the right curve's key with its point moved off the curve) was refused by ImportPrivateKey, without a panic (vacuously true for key types that are not EC types)", col(func(r execRow) bool { return !r.badAccepted }))
 	b.WriteString("(* encoding of the bytes ExportPubKeyBytes returned (classified by length, then by first byte) *)\n")
 	b.WriteString("Definition exec_export_enc (k : ktype) : option enc :=\n  match k with\n")
 
